@@ -40,6 +40,13 @@ func fieldName(name string) string {
 	return strings.Title(ret)
 }
 
+func responseKey(field *ast.Field) string {
+	if field.Alias != nil {
+		return field.Alias.Name
+	}
+	return field.Name.Name
+}
+
 // An inline fragment without a type condition applies to the enclosing type.
 func (s *generateState) inlineFragmentType(enclosing schema.Type, frag *ast.InlineFragment) schema.NamedType {
 	if frag.TypeCondition == nil {
@@ -124,6 +131,10 @@ func (s *generateState) generateType(t schema.Type, selections []ast.Selection, 
 		// types for which inline fragments have been generated
 		inlineFragmentTypes := map[string]struct{}{}
 
+		// response keys for which fields have been generated
+		fieldKeys := map[string]struct{}{}
+
+		allSelections := selections
 		for _, sel := range selections {
 			switch sel := sel.(type) {
 			case *ast.FragmentSpread:
@@ -162,13 +173,19 @@ func (s *generateState) generateType(t schema.Type, selections []ast.Selection, 
 				fields[cond.TypeName()] = gen + " `json:\"-\"`"
 				typeConditions[cond.TypeName()] = append(typeConditions[cond.TypeName()], cond.TypeName())
 			case *ast.Field:
-				var selections []ast.Selection
-				if sel.SelectionSet != nil {
-					selections = sel.SelectionSet.Selections
+				k := responseKey(sel)
+				if _, ok := fieldKeys[k]; ok {
+					// already generated together with the first selection of this response key
+					continue
 				}
-				k := sel.Name.Name
-				if sel.Alias != nil {
-					k = sel.Alias.Name
+				fieldKeys[k] = struct{}{}
+				// A response key may be selected more than once (the selections are merged by the
+				// server), so the selection sets of all of its selections are generated together.
+				var selections []ast.Selection
+				for _, other := range allSelections {
+					if other, ok := other.(*ast.Field); ok && responseKey(other) == k && other.SelectionSet != nil {
+						selections = append(selections, other.SelectionSet.Selections...)
+					}
 				}
 				if sel.Name.Name == "__typename" {
 					fields[k] = "string"
